@@ -223,6 +223,13 @@ class Storage:
         self.port_dir = port_dir
 
 
+class _Frozen:
+    """a storage look-alike holding an earlier value (for 'last_value of a part of a signal)"""
+
+    def __init__(self, st, val):
+        self.name, self.ty, self.val, self.is_signal, self.port_dir = st.name, st.ty, val, st.is_signal, st.port_dir
+
+
 class Ref:
     """a name bound in a scope: storage + optional sub-selection (for collapsed slice / index actuals)"""
 
@@ -437,6 +444,14 @@ class Design:
                             ref = Ref(ref.st, ref.sel, fty)
                         binding[fl] = ref
                     else:
+                        if formals[fl]["dir"] == "out" and actual[0] in ("slice", "index", "call"):
+                            # a nested target such as rv(3)(1) or rz(0)(4 downto 3): not collapsed, driven by an
+                            # implicit process  actual <= formal  (one delta later, same values)
+                            st = Storage(sub_path + f, fty, fty.default(), True, port_dir="out")
+                            self.storages.append(st)
+                            binding[fl] = Ref(st)
+                            out_convs.append((st, None, actual, f))
+                            continue
                         if formals[fl]["dir"] != "in":
                             raise VhdlTypeError(f"output formal {f} associated with an expression")
                         st = Storage(sub_path + f, fty, fty.default(), True, port_dir="in")
@@ -457,7 +472,8 @@ class Design:
                     hidden = f"cv_formal_{len(self.procs)}_{f}"
                     scope.bind(hidden, Ref(st))
                     pid2 = len(self.procs)
-                    body = [{"stmt": "sassign", "target": actual, "expr": ("call", conv, [("name", hidden)]), "line": s["line"]}]
+                    src = ("name", hidden) if conv is None else ("call", conv, [("name", hidden)])
+                    body = [{"stmt": "sassign", "target": actual, "expr": src, "line": s["line"]}]
                     self.procs.append(Proc(pid2, None, scope, body, None, "cassign", s["line"]))
                 # an instance output drives its actual
                 for f, actual in s["ports"]:
@@ -690,15 +706,39 @@ class Design:
         if b is not None:
             raise VhdlTypeError(f"{fname} is hidden by a user declaration and cannot be called")
         if f in ("rising_edge", "falling_edge"):
-            if len(args) != 1 or args[0][0] != "name":
+            a0 = args[0] if len(args) == 1 else None
+            elem = None
+            if a0 is not None and a0[0] == "call" and len(a0[2]) == 1 and a0[2][0][0] == "int":
+                # edge of one element of a vector signal:  rising_edge(ctrl(0))
+                elem = a0[2][0][1]
+                a0 = ("name", a0[1])
+            if a0 is None or a0[0] != "name":
                 raise VhdlTypeError(f"{f} needs a signal name")
-            rb = scope.lookup(args[0][1])
-            if not isinstance(rb, Ref) or not rb.st.is_signal or rb.st.ty.tag != "sl":
-                raise VhdlTypeError(f"{f} applied to a non std_logic signal")
+            rb = scope.lookup(a0[1])
+            if not isinstance(rb, Ref) or not rb.st.is_signal:
+                raise VhdlTypeError(f"{f} applied to a non-signal")
             self._note_read(rb, pr)
-            ev = id(rb.st) in self.events
-            cur = rb.st.val.v
-            last = self.last_values.get(id(rb.st), SL("U")).v
+            curv = self._read_ref(rb, pr)
+            lastv = self.last_values.get(id(rb.st))
+            if elem is None:
+                if rb.st.ty.tag != "sl" or rb.sel is not None and rb.sel[0] != "index":
+                    if not isinstance(curv, SL):
+                        raise VhdlTypeError(f"{f} applied to a non std_logic signal")
+                cur = curv.v
+                if lastv is None:
+                    last = "U"
+                elif isinstance(lastv, SL):
+                    last = lastv.v
+                else:
+                    last = self._read_ref(Ref(_Frozen(rb.st, lastv), rb.sel, rb.fty), pr).v
+            else:
+                if not isinstance(curv, Vec):
+                    raise VhdlTypeError(f"{f} applied to an element of a non-vector")
+                cur = curv.bits[curv.pos(elem)]
+                last = "U" if lastv is None else (lastv.bits[lastv.pos(elem)] if isinstance(lastv, Vec) else "U")
+                if rb.sel is not None:
+                    raise VhdlTypeError(f"{f} on an element of a collapsed port slice is not supported")
+            ev = id(rb.st) in self.events and cur != last
             if f == "rising_edge":
                 return ev and cur == "1" and last == "0"
             return ev and cur == "0" and last == "1"
@@ -1157,21 +1197,61 @@ class Design:
 
     # ---- simulation kernel ---------------------------------------------------------------------
     def _sens_ids(self, pr):
+        """static sensitivity: set of storage ids; entries that name one element `sig(i)` are additionally kept in
+        self.elem_sens[pid] = {storage id: set of element indices} so that only an event on that element wakes the
+        process (VHDL: the longest static prefix is sig(i))"""
         if pr.kind == "process" and not getattr(pr, "sens_all", False):
             ids = set()
+            elems = {}
+            whole = set()
             for n in pr.sens:
                 node = n
+                idx = None
+                if node[0] == "call" and len(node[2]) == 1 and node[2][0][0] == "int":
+                    idx = node[2][0][1]
                 while node[0] != "name":
                     node = node[1] if node[0] != "call" else ("name", node[1])
                 b = pr.scope.lookup(node[1])
                 if not isinstance(b, Ref) or not b.st.is_signal:
                     raise VhdlTypeError(f"sensitivity list names non-signal {node[1]}")
                 ids.add(id(b.st))
+                if idx is not None and b.sel is None and b.st.ty.tag == "vec":
+                    elems.setdefault(id(b.st), set()).add(idx)
+                else:
+                    whole.add(id(b.st))
+            self.elem_sens[pr.pid] = {k: v for k, v in elems.items() if k not in whole}
+            self._st_by_id = getattr(self, "_st_by_id", {})
             return ids
         return None  # dynamic: all signals read
 
+    def _woken(self, pr, sens):
+        hit = sens & self.events
+        if not hit:
+            return False
+        es = self.elem_sens.get(pr.pid)
+        if not es:
+            return True
+        for sid in hit:
+            if sid not in es:
+                return True
+            st = self._storage_by_id(sid)
+            last = self.last_values.get(sid)
+            for i in es[sid]:
+                cur = st.val.bits[st.val.pos(i)]
+                old = last.bits[last.pos(i)] if isinstance(last, Vec) else "U"
+                if cur != old:
+                    return True
+        return False
+
+    def _storage_by_id(self, sid):
+        m = getattr(self, "_stmap", None)
+        if m is None or len(m) != len(self.storages):
+            m = self._stmap = {id(st): st for st in self.storages}
+        return m[sid]
+
     def initialise(self):
         self.last_values = {}
+        self.elem_sens = {}
         self.static_sens = {}
         self.dyn_sens = {}
         self.events = set()
@@ -1227,7 +1307,7 @@ class Design:
                 sens = self.static_sens[pr.pid]
                 if sens is None:
                     sens = self.dyn_sens.get(pr.pid, set())
-                if sens & self.events:
+                if self._woken(pr, sens):
                     pending_all.append((pr, self._run_proc(pr)))
             self._apply(pending_all)
 
